@@ -25,3 +25,26 @@ char *NAME(char *dest, size_t *dmaxp, const char *delim, char **ptr) {          
 }
 TOK(fx14_good, dest, )
 TOK(fx14_skip_terminator, dest + 1, if (dlen) dlen--;)       /* resumes behind the string's own terminator */
+
+/* error exits hand back a null pointer */
+char *fx14_err_null(char *dest, size_t *dmaxp, const char *delim, char **ptr) {
+    char *tok = NULL; size_t n = *dmaxp;
+    while (n && !tok) {
+        if (*dest == 0) { invoke_safe_str_constraint_handler("fx14: unterminated", NULL, 407); *ptr = NULL; return tok; }   /* tok is null here */
+        if (*dest != *delim) tok = dest;
+        dest++; n--;
+    }
+    if (!tok) { invoke_safe_str_constraint_handler("fx14: empty", NULL, 407); return NULL; }
+    *ptr = dest;
+    return tok;
+}
+char *fx14_err_ptr(char *dest, size_t *dmaxp, const char *delim, char **ptr) {
+    char *tok = NULL; size_t n = *dmaxp;
+    while (n && !tok) {
+        if (*dest != *delim) tok = dest;
+        if (delim[1] != 0) { invoke_safe_str_constraint_handler("fx14: delim too long", NULL, 407); *ptr = NULL; return tok; }   /* tok may be dest */
+        dest++; n--;
+    }
+    *ptr = dest;
+    return tok;
+}
